@@ -809,10 +809,51 @@ func (fr *Frame) mapUpdate(x *ssa.MapUpdate, st *State) {
 	st.store(cell, mt.Elem(), fr.get(x.Value))
 }
 
-// range over a map: an iterator token; Next yields an arbitrary present key (order unconstrained)
+// range over a map. For string-keyed maps the iteration is described by an ORDER TOKEN tok (ghost, fresh for every execution
+// of the range statement): iterlen(tok) keys are visited, the j-th is mapkeyat(tok, j); the token enumerates exactly the keys
+// present when the loop starts, each once (iterOrderTerm). The ghost counter $mi is the index of the last key handed out
+// (-1 before the first Next), like the index of a slice range. Other maps: Next yields an arbitrary present key.
+func rangeID(r *ssa.Range) string {
+	return r.Parent().String() + ":" + r.Name()
+}
+
+func iterOrderTerm(tok, m, has *Term) *Term {
+	n := App("iterlen", SInt, tok)
+	i := BoundVar(freshName("io.i"), SInt)
+	j := BoundVar(freshName("io.j"), SInt)
+	k := BoundVar(freshName("io.k"), SStr)
+	keyat := func(x *Term) *Term { return App("mapkeyat", SStr, tok, x) }
+	pos := App("iterpos", SInt, tok, k)
+	return And(
+		Le(IntLit(0), n),
+		Implies(Eq(m, TNil), Eq(n, IntLit(0))),
+		Forall([]*Term{j}, Implies(And(Le(IntLit(0), j), Lt(j, n)), Select(has, MKey(m, keyat(j))))),
+		Forall([]*Term{i, j}, Implies(And(Le(IntLit(0), i), Lt(i, j), Lt(j, n)), Not(Eq(keyat(i), keyat(j))))),
+		Forall([]*Term{k}, Implies(Select(has, MKey(m, k)), And(Le(IntLit(0), pos), Lt(pos, n), Eq(keyat(pos), k)))),
+	)
+}
+
+func stringKeyed(t types.Type) bool {
+	mt, ok := t.Underlying().(*types.Map)
+	if !ok {
+		return false
+	}
+	b, ok := mt.Key().Underlying().(*types.Basic)
+	return ok && b.Info()&types.IsString != 0
+}
+
 func (fr *Frame) rangeInit(x *ssa.Range, st *State) Value {
 	if kindOf(x.X.Type()) == "str" {
 		fr.vc.oblige(st, "subset", "range-over-string", nil, TFalse, x.Pos())
+	}
+	if stringKeyed(x.X.Type()) {
+		if m, ok := fr.get(x.X).(*Term); ok {
+			tok := Var(freshName("mtok"), SInt)
+			id := rangeID(x)
+			st.Ghost["$mtok:"+id] = tok
+			st.Ghost["$mi:"+id] = IntLit(-1)
+			fr.vc.addFact(st, iterOrderTerm(tok, m, st.heapGet("M:has")))
+		}
 	}
 	return fr.get(x.X)
 }
@@ -830,7 +871,16 @@ func (fr *Frame) rangeNext(x *ssa.Next, st *State) Value {
 		// ranging over a nil map yields nothing
 		return TupleV{TFalse, zeroValue(mt.Key()), zeroValue(mt.Elem())}
 	}
-	kv := freshValue(mt.Key(), "next.k", fr.vc.allocN)
+	var kv Value
+	id := rangeID(r)
+	if tok, have := st.Ghost["$mtok:"+id]; have && stringKeyed(r.X.Type()) {
+		mi := Add(st.Ghost["$mi:"+id], IntLit(1))
+		st.Ghost["$mi:"+id] = mi
+		ok = Lt(mi, App("iterlen", SInt, tok))
+		kv = App("mapkeyat", SStr, tok, mi)
+	} else {
+		kv = freshValue(mt.Key(), "next.k", fr.vc.allocN)
+	}
 	key := mapKeyTerm(kv)
 	cell := fr.mapCell(m, key)
 	// a nil map has no entries; a yielded key is present
